@@ -488,6 +488,11 @@ func DownloadFolderHandler(rwc io.ReadWriter, fullPath string, fileTransfer *Fil
 			return fmt.Errorf("error opening file: %w", err)
 		}
 
+		// Resume from the offset the client asked for; the transfer size sent above already excludes it.
+		if _, err := file.Seek(dataOffset, io.SeekStart); err != nil {
+			return fmt.Errorf("error seeking to resume offset: %w", err)
+		}
+
 		// wr := bufio.NewWriterSize(rwc, 1460)
 		if _, err = io.Copy(rwc, io.TeeReader(file, fileTransfer.bytesSentCounter)); err != nil {
 			return fmt.Errorf("error sending file: %w", err)
